@@ -15,6 +15,8 @@ def main(argv=None):
     ap.add_argument("--seed", type=int, default=None)
     ap.add_argument("--replay", default=None)
     a = ap.parse_args(argv)
+    import logging
+    logging.disable(logging.CRITICAL)      # the engine logs step failures; they are expected here
     from harness.core import Check, Machinery
     try:
         mod = importlib.import_module("harness.checks." + a.pid.lower())
